@@ -20,3 +20,9 @@ mod params;
 mod keygen;
 #[cfg(kani)]
 mod codec;
+#[cfg(kani)]
+mod nopanic;
+#[cfg(kani)]
+mod scalarmul;
+#[cfg(kani)]
+mod zeroize_h;
